@@ -4,15 +4,23 @@ Stage ``files``: hash_checksums(file, algos) on generated files (sizes around
 every multiple of the 128 KiB read buffer, generated content, algorithm tuples
 with order and repetition) vs reference digests computed one-shot by code that
 shares nothing with the function under test (hashlib one-shot, own pure-Python
-XXH32/XXH64, one-shot XXH3-128 + published vectors).
+XXH32/XXH64, one-shot XXH3-128 + published vectors); for a third of the files
+the path is then rewritten with another content of the same size and the same
+modification time and hashed again.
 Stage ``grid`` (thorough: exhaustive): the full size grid x 13 algorithms x 3
 content kinds.
 Stage ``dataset``: every checksum stored anywhere in the metadata tree after
 every session of a generated history, and the ones returned by write_config /
 current_metadata_checksums, vs the reference digests of the final on-disk
-bytes of the named file, in the configured order.
+bytes of the named file, in the configured order.  Sessions may be
+"unpublished" (killed before the final update: nothing asserted until the next
+completed session) or "aborted" (the caller's code raises inside the
+with-block after the writes: an orderly exit, everything recorded must be
+exact).
 """
 from __future__ import annotations
+
+import os
 
 import random
 import string
@@ -110,6 +118,20 @@ def run_files(case, ctx):
         got = hash_checksums(p, tuple(case["algos"]))
         check_tuple(ctx, f"hash_checksums(size={len(data)})", case["algos"],
                     got, data)
+        if data and case["pseed"] % 3 == 0:
+            # the same path holds another content of the same size with the
+            # same modification time (rsync -t, cp -p, tar x, a coarse clock):
+            # the digests are those of the bytes that are there now
+            st_ = os.stat(p)
+            flipped = bytes([data[0] ^ 0x5A]) + data[1:]
+            p.write_bytes(flipped)
+            os.utime(p, ns=(st_.st_atime_ns, st_.st_mtime_ns))
+            got = hash_checksums(p, tuple(case["algos"]))
+            check_tuple(ctx, f"hash_checksums(size={len(data)}) after the "
+                        f"file was replaced by another content of the same "
+                        f"size and modification time", case["algos"], got,
+                        flipped)
+            ctx.label("same-size-same-mtime-rewrite")
     finally:
         dsops.rmtree(d)
     n = len(data)
@@ -196,6 +218,11 @@ def strategy_dataset(draw, tier):
         if op["k"] == "filler" and draw(st.integers(0, 4)) == 0 and \
                 i < len(case["ops"]) - 1:
             op["k"] = "unpublished"
+        elif op["k"] == "filler" and draw(st.integers(0, 4)) == 0:
+            # the caller's code raises inside the with-block after the writes
+            # (an orderly exit of the filler, not a crash): whatever the
+            # metadata records afterwards must be exact
+            op["k"] = "aborted"
     if draw(st.integers(0, 2)) == 0:
         # recovery pattern: a directory is published, an unpublished (killed)
         # session continues in the SAME directory and split, then another
